@@ -13,6 +13,7 @@ TYPES = {  # name -> (C++ type, coq ety, scalar instance, complex?, tbytes, prec
     'cdouble': ('std::complex<double>', 'ty_cdouble', 'ZC', True, 8, 53),
 }
 SENT = 77777
+SCALES = {'int64': 2 ** 33 + 1, 'int32': 4097, 'double': 2 ** 30 + 1, 'float': 1025}   # |A| <= 9*scale, K <= 17: exact in every type
 
 def gen_cases(sd, tr):
     g = LCG(sd)
@@ -41,8 +42,10 @@ def gen_cases(sd, tr):
             if n == 1: modes.append(7)
             if m == 1: modes.append(8)
             frac = (not TYPES[ty][3]) and TYPES[ty][5] > 0 and g.next() % 5 == 0   # non-integer data, judged by the bound
+            # wide operands: A scaled by an odd constant beyond 32 bits (int64), resp. as large as keeps every product and sum exact in the type
+            scale = SCALES[ty] if (ty in SCALES and not frac and g.next() % 2 == 0) else 1
             cases.append({'id': len(cases), 'ty': ty, 'M': m, 'K': k, 'N': n, 'modes': sorted(modes),
-                          'sa': g.next() % 100000, 'sb': g.next() % 100000, 'sc': g.next() % 100000, 'frac': frac})
+                          'sa': g.next() % 100000, 'sb': g.next() % 100000, 'sc': g.next() % 100000, 'frac': frac, 'scale': scale})
     return cases
 
 CPP_HEAD = r'''
@@ -53,11 +56,12 @@ template<typename T> struct is_c { static constexpr bool v = false; };
 template<typename T> struct is_c<std::complex<T>> { static constexpr bool v = true; };
 
 template<typename T, size_t M, size_t K, size_t N>
-void run_case(long id, unsigned modes, uint64_t sa, uint64_t sb, uint64_t sc, int frac, int bits, int sh) {
+void run_case(long id, unsigned modes, uint64_t sa, uint64_t sb, uint64_t sc, int frac, int bits, int sh, long long scale = 1) {
     Tensor<T,M,K> A; Tensor<T,K,N> B; Tensor<T,M,N> C0;
     if (frac) { vh_fill_frac(reinterpret_cast<typename std::conditional<is_c<T>::v,double,T>::type*>(A.data()), M*K, sa, bits, sh);
                 vh_fill_frac(reinterpret_cast<typename std::conditional<is_c<T>::v,double,T>::type*>(B.data()), K*N, sb, bits, sh); }
     else { vh_fill(A.data(), M*K, sa); vh_fill(B.data(), K*N, sb); }
+    if (scale != 1) for (size_t q = 0; q < M*K; ++q) A.data()[q] *= (T)scale;
     vh_fill(C0.data(), M*N, sc, 1, 9);
     if (modes & (1u<<0)) {
         vh_fenced<T, M*N> out(77777);
@@ -72,13 +76,15 @@ void run_case(long id, unsigned modes, uint64_t sa, uint64_t sb, uint64_t sc, in
     if (modes & (1u<<5)) { Tensor<T,M,N> C(C0); C *= A % B; vh_line("R5", id, C.data(), M*N); }
 }
 template<typename T, size_t M, size_t K>
-void run_mv(long id, uint64_t sa, uint64_t sb) {
+void run_mv(long id, uint64_t sa, uint64_t sb, long long scale = 1) {
     Tensor<T,M,K> A; Tensor<T,K> v; vh_fill(A.data(), M*K, sa); vh_fill(v.data(), K, sb);
+    if (scale != 1) for (size_t q = 0; q < M*K; ++q) A.data()[q] *= (T)scale;
     Tensor<T,M> r = matmul(A, v); vh_line("R7", id, r.data(), M);
 }
 template<typename T, size_t K, size_t N>
-void run_vm(long id, uint64_t sa, uint64_t sb) {
+void run_vm(long id, uint64_t sa, uint64_t sb, long long scale = 1) {
     Tensor<T,K> v; Tensor<T,K,N> B; vh_fill(v.data(), K, sa); vh_fill(B.data(), K*N, sb);
+    if (scale != 1) for (size_t q = 0; q < K; ++q) v.data()[q] *= (T)scale;
     Tensor<T,N> r = matmul(v, B); vh_line("R8", id, r.data(), N);
 }
 template<typename T, size_t N> void vs_line(const char* ty) {
@@ -102,9 +108,9 @@ def cpp_source(shard, with_vs):
         cty = TYPES[c['ty']][0]
         mask = sum(1 << m for m in c['modes'] if m <= 5)
         bits, sh = frac_params(c['ty']) if c['frac'] else (0, 0)
-        L.append('  run_case<%s,%d,%d,%d>(%d,%du,%d,%d,%d,%d,%d,%d);' % (cty, c['M'], c['K'], c['N'], c['id'], mask, c['sa'], c['sb'], c['sc'], 1 if c['frac'] else 0, bits, sh))
-        if 7 in c['modes']: L.append('  run_mv<%s,%d,%d>(%d,%d,%d);' % (cty, c['M'], c['K'], c['id'], c['sa'], c['sb']))
-        if 8 in c['modes']: L.append('  run_vm<%s,%d,%d>(%d,%d,%d);' % (cty, c['K'], c['N'], c['id'], c['sa'], c['sb']))
+        L.append('  run_case<%s,%d,%d,%d>(%d,%du,%d,%d,%d,%d,%d,%d,%dLL);' % (cty, c['M'], c['K'], c['N'], c['id'], mask, c['sa'], c['sb'], c['sc'], 1 if c['frac'] else 0, bits, sh, c.get('scale', 1)))
+        if 7 in c['modes']: L.append('  run_mv<%s,%d,%d>(%d,%d,%d,%dLL);' % (cty, c['M'], c['K'], c['id'], c['sa'], c['sb'], c.get('scale', 1)))
+        if 8 in c['modes']: L.append('  run_vm<%s,%d,%d>(%d,%d,%d,%dLL);' % (cty, c['K'], c['N'], c['id'], c['sa'], c['sb'], c.get('scale', 1)))
     L.append('  return 0; }')
     return '\n'.join(L)
 
@@ -119,7 +125,7 @@ def case_data(c):
         ga, gb = LCG(c['sa']), LCG(c['sb'])
         a = [ga.next() % (2 * mm + 1) - mm for _ in range(m * k)]; b = [gb.next() % (2 * mm + 1) - mm for _ in range(k * n)]
     else:
-        a = data_ints(c['sa'], m * k); b = data_ints(c['sb'], k * n)
+        a = [x * c.get('scale', 1) for x in data_ints(c['sa'], m * k)]; b = data_ints(c['sb'], k * n)
     c0 = data_ints(c['sc'], (2 if TYPES[c['ty']][3] else 1) * m * n, 1, 9)
     if TYPES[c['ty']][3]: c0 = [(c0[2 * i], c0[2 * i + 1]) for i in range(m * n)]
     return a, b, c0
